@@ -1,9 +1,9 @@
 (* The extracted checker check_C19 decides exactly the specification relation
    trace_ok (DenseCheck.v): sound (accepts only traces of the table-level register
    file) and complete (accepts every such trace). *)
-From Coq Require Import List Arith Bool Lia.
+From Coq Require Import List Arith Bool Lia ZArith.
 From LMBase Require Import Res ListX.
-From LMDense Require Import DenseModel DenseProofs DenseReg DenseRegProofs DenseCheck.
+From LMDense Require Import DenseModel DenseProofs DenseReg DenseRegProofs DenseSteps DenseStepsProofs DenseCheck.
 Import ListNotations.
 
 Lemma leqb_spec {A} (e : A -> A -> bool) :
@@ -68,32 +68,136 @@ Proof.
   - apply IH. intros y Hy. apply H. right; auto.
 Qed.
 
+
+(* deciders of relations that are not Leibniz equality (the element type's PartialEq) *)
+Lemma leqb_rel {A} (e : A -> A -> bool) (R : A -> A -> Prop) :
+  (forall x y, e x y = true <-> R x y) -> forall a b, leqb e a b = true <-> Forall2 R a b.
+Proof.
+  intros He. induction a as [|x a IH]; intros [|y b]; simpl; split; intros H;
+    try discriminate; try (inversion H; fail); auto.
+  - apply andb_true_iff in H. destruct H as [H1 H2]. constructor; [apply He | apply IH]; auto.
+  - inversion H; subst. apply andb_true_iff. split; [apply He | apply IH]; auto.
+Qed.
+
+Lemma table_eqb_leqb {T} (e : T -> T -> bool) (a b : @table T) : table_eqb e a b = leqb (leqb e) a b.
+Proof.
+  revert b; induction a as [|x a IH]; intros [|y b]; simpl; auto. f_equal; [|apply IH].
+  revert y; induction x as [|u x IHx]; intros [|v y]; simpl; auto. f_equal. apply IHx.
+Qed.
+
+Lemma map_some_inj {A} (a b : list A) : map Some a = map Some b -> a = b.
+Proof.
+  revert b; induction a as [|x a IH]; intros [|y b] H; try discriminate; auto.
+  simpl in H. injection H as H1 H2. subst. f_equal. auto.
+Qed.
+
+Lemma Forall2_seq_map {B} (P : nat -> B -> Prop) (f : nat -> B) (l : list nat) :
+  (forall x, In x l -> P x (f x)) -> Forall2 P l (map f l).
+Proof.
+  induction l as [|x l IH]; intros H; simpl; constructor.
+  - apply H. left; auto.
+  - apply IH. intros y Hy. apply H. right; auto.
+Qed.
+
+
+(* ---------- matrix == as the lifting of the element == ---------- *)
+Section RelTab.
+  Context {T : Type}.
+  Variable eqR : T -> T -> bool.
+
+  Lemma Forall2_eq_iff {A} (a b : list A) : Forall2 eq a b <-> a = b.
+  Proof.
+    split.
+    - induction 1; subst; auto.
+    - intros ->. induction b; constructor; auto.
+  Qed.
+
+  Lemma Forall2_iff {A} (P Q : A -> A -> Prop) :
+    (forall x y, P x y <-> Q x y) -> forall a b, Forall2 P a b <-> Forall2 Q a b.
+  Proof.
+    intros H a b. split; induction 1; constructor; auto; apply H; auto.
+  Qed.
+
+  Lemma rel_tab_leibniz : (forall x y, eqR x y = true <-> x = y) ->
+    forall a b : @table T, rel_tab eqR a b <-> a = b.
+  Proof.
+    intros He a b. unfold rel_tab. etransitivity; [|apply Forall2_eq_iff]. apply Forall2_iff.
+    intros x y. etransitivity; [|apply Forall2_eq_iff]. apply Forall2_iff. exact He.
+  Qed.
+
+  Lemma Forall2_diag {A} (P : A -> A -> Prop) (l : list A) : Forall2 P l l <-> Forall (fun x => P x x) l.
+  Proof.
+    induction l as [|x l IH]; split; intros H; constructor; inversion H; subst; auto; apply IH; auto.
+  Qed.
+
+  Lemma rel_tab_refl_iff (t : @table T) :
+    rel_tab eqR t t <-> Forall (Forall (fun x => eqR x x = true)) t.
+  Proof.
+    unfold rel_tab. rewrite Forall2_diag. split; intros H; rewrite Forall_forall in *; intros r Hr;
+      specialize (H r Hr).
+    - apply (proj1 (Forall2_diag (fun x y => eqR x y = true) r)). exact H.
+    - apply (proj2 (Forall2_diag (fun x y => eqR x y = true) r)). exact H.
+  Qed.
+
+  Lemma Forall2_sym' {A} (P : A -> A -> Prop) : (forall x y, P x y -> P y x) ->
+    forall a b, Forall2 P a b -> Forall2 P b a.
+  Proof. intros H a b. induction 1; constructor; auto. Qed.
+
+  Lemma Forall2_trans' {A} (P : A -> A -> Prop) : (forall x y z, P x y -> P y z -> P x z) ->
+    forall a b c, Forall2 P a b -> Forall2 P b c -> Forall2 P a c.
+  Proof.
+    intros H a b c Hab. revert c. induction Hab; intros c Hbc; inversion Hbc; subst; constructor; eauto.
+  Qed.
+
+  Lemma rel_tab_sym : (forall x y, eqR x y = eqR y x) ->
+    forall a b : @table T, rel_tab eqR a b -> rel_tab eqR b a.
+  Proof.
+    intros Hs. apply Forall2_sym'. intros x y. apply Forall2_sym'. intros u v K. rewrite Hs. exact K.
+  Qed.
+
+  Lemma rel_tab_trans : (forall x y z, eqR x y = true -> eqR y z = true -> eqR x z = true) ->
+    forall a b c : @table T, rel_tab eqR a b -> rel_tab eqR b c -> rel_tab eqR a c.
+  Proof. intros Ht. apply Forall2_trans'. intros x y z. apply Forall2_trans'. exact Ht. Qed.
+End RelTab.
+
 Section CheckProofs.
   Context {T : Type}.
   Variable dflt : T.
-  Variable C S : nat.
-  Variable eqT : T -> T -> bool.
-  Hypothesis eqT_spec : forall x y, eqT x y = true <-> x = y.
+  Variable C S size align : nat.
+  Variable idT eqR : T -> T -> bool.
+  Hypothesis idT_spec : forall x y, idT x y = true <-> x = y.
   Variable pat : list bool.
+  Variable steps : list istep.
 
-  Lemma teqb_spec (a b : @table T) : teqb eqT a b = true <-> a = b.
-  Proof. apply leqb_spec. apply leqb_spec. exact eqT_spec. Qed.
+  Lemma teqb_spec (a b : @table T) : teqb idT a b = true <-> a = b.
+  Proof. apply leqb_spec. apply leqb_spec. exact idT_spec. Qed.
 
-  Lemma mixeqb_spec (a b : list (option (list T))) : mixeqb eqT a b = true <-> a = b.
-  Proof. apply leqb_spec. apply oeqb_spec. apply leqb_spec. exact eqT_spec. Qed.
+  Lemma mixeqb_spec (a b : list (option (list T))) : mixeqb idT a b = true <-> a = b.
+  Proof. apply leqb_spec. apply oeqb_spec. apply leqb_spec. exact idT_spec. Qed.
 
-  Lemma check_mobs_spec t o : check_mobs S eqT t o = true <-> mobs_ok S t o.
+  (* == of tables decides the lifted element relation, whatever eqR is *)
+  Lemma treqb_spec (a b : @table T) : treqb eqR a b = true <-> rel_tab eqR a b.
   Proof.
-    unfold check_mobs, mobs_ok. rewrite !andb_true_iff, !Nat.eqb_eq, teqb_spec. tauto.
+    unfold treqb, rel_tab. apply leqb_rel. intros x y. apply leqb_rel. intros u v. tauto.
   Qed.
 
-  Lemma check_eq_spec p b : check_eq eqT p b = true <-> eq_ok p b.
-  Proof. unfold check_eq, eq_ok. apply eqb_iff. apply teqb_spec. Qed.
+  Lemma check_addr_spec a0 r a : check_addr S size align a0 r a = true <-> addr_ok S size align a0 r a.
+  Proof. unfold check_addr, addr_ok. rewrite andb_true_iff, !Z.eqb_eq. tauto. Qed.
 
-  Lemma check_ne_spec p b : check_ne eqT p b = true <-> ne_ok p b.
-  Proof. unfold check_ne, ne_ok. apply eqb_negb_iff. apply teqb_spec. Qed.
+  Lemma check_mobs_spec t o : check_mobs S size align idT t o = true <-> mobs_ok S size align t o.
+  Proof.
+    unfold check_mobs, mobs_ok. rewrite !andb_true_iff, !Nat.eqb_eq, teqb_spec.
+    rewrite (forall2b_spec _ _ (check_addr_spec (hd 0%Z (ob_addrs o)))). tauto.
+  Qed.
 
-  Lemma check_robs_spec regs o : check_robs S eqT regs o = true <-> robs_ok S regs o.
+  Lemma check_eq_spec p b : check_eq eqR p b = true <-> eq_ok eqR p b.
+  Proof. unfold check_eq, eq_ok. apply eqb_iff. apply treqb_spec. Qed.
+
+  Lemma check_ne_spec p b : check_ne eqR p b = true <-> ne_ok eqR p b.
+  Proof. unfold check_ne, ne_ok. apply eqb_negb_iff. apply treqb_spec. Qed.
+
+  Lemma check_robs_spec regs o :
+    check_robs S size align idT eqR regs o = true <-> robs_ok S size align eqR regs o.
   Proof.
     unfold check_robs, robs_ok. rewrite !andb_true_iff.
     rewrite (forall2b_spec _ _ check_mobs_spec).
@@ -104,18 +208,43 @@ Section CheckProofs.
   Lemma is_nil_spec {A} (l : list A) : is_nil l = true <-> l = [].
   Proof. destruct l; simpl; split; intros H; try discriminate; auto. Qed.
 
-  Lemma check_fobs_spec t f : check_fobs C eqT pat t f = true <-> fobs_ok C pat t f.
+  (* the positional-iteration checker (list surgery: take_steps) decides the index-level
+     specification (steps_idx / stepby_idx) *)
+  Lemma check_steps_spec t o : check_steps idT steps t o = true <-> sobs_ok steps t o.
+  Proof.
+    clear dflt eqR C S size align pat.
+    unfold check_steps, sobs_ok. cbv zeta.
+    rewrite !andb_true_iff, !teqb_spec, !mixeqb_spec.
+    rewrite (leqb_spec Nat.eqb Nat.eqb_eq).
+    rewrite (oeqb_spec _ (leqb_spec idT idT_spec)).
+    rewrite Nat.eqb_eq.
+    rewrite take_steps_idx, take_steps_skip, take_steps_rev_skip, take_steps_last.
+    rewrite <- (steps_lens_idx steps 0 (length t) (Nat.le_0_l _)), Nat.sub_0_r.
+    assert (E1 : so_step_by o = somes (take_steps (SNext :: repeat (SNth (steps_k steps)) (length t)) t)
+                 <-> map Some (so_step_by o) = map (nth_error t) (stepby_idx (steps_k steps) (Datatypes.S (length t)) 0 (length t))).
+    { rewrite <- take_steps_step_by. split; [intros ->; reflexivity|apply map_some_inj]. }
+    assert (E2 : so_rev_step_by o = somes (take_steps (SBack :: repeat (SNthBack (steps_k steps)) (length t)) t)
+                 <-> map Some (so_rev_step_by o) = map (nth_error (rev t)) (stepby_idx (steps_k steps) (Datatypes.S (length t)) 0 (length t))).
+    { rewrite <- take_steps_rev_step_by. split; [intros ->; reflexivity|apply map_some_inj]. }
+    rewrite E1, E2. tauto.
+  Qed.
+
+  Lemma check_fobs_spec t f :
+    check_fobs C idT eqR pat steps t f = true <-> fobs_ok C eqR pat steps t f.
   Proof.
     unfold check_fobs, fobs_ok. rewrite !andb_true_iff, !teqb_spec, !mixeqb_spec.
     rewrite (leqb_spec Nat.eqb Nat.eqb_eq).
     assert (E : (is_nil t || (C =? 0)) = true <-> (t = [] \/ C = 0)).
     { rewrite orb_true_iff, is_nil_spec, Nat.eqb_eq. tauto. }
-    rewrite (eqb_iff _ _ _ E). tauto.
+    rewrite (eqb_iff _ _ _ E).
+    rewrite !(eqb_iff _ _ _ (treqb_spec t t)), !(eqb_negb_iff _ _ _ (treqb_spec t t)).
+    rewrite check_steps_spec. tauto.
   Qed.
 
   (* soundness and completeness of the extracted checker *)
   Lemma check_C19_iff ops : forall regs ob fin,
-    check_C19 dflt C S eqT pat regs ops ob fin = true <-> trace_ok dflt C S pat regs ops ob fin.
+    check_C19 dflt C S size align idT eqR pat steps regs ops ob fin = true
+    <-> trace_ok dflt C S size align eqR pat steps regs ops ob fin.
   Proof.
     induction ops as [|o ops IH]; intros regs ob fin; simpl.
     - split.
@@ -124,12 +253,12 @@ Section CheckProofs.
       + intros H. inversion H; subst. apply (forall2b_spec _ _ check_fobs_spec). assumption.
     - split.
       + intros H. destruct (rt_step dflt C regs o) as [regs'| |site|] eqn:E; try discriminate.
-        * destruct ob as [|[|x] rest]; try discriminate.
+        * destruct ob as [|[| |x] rest]; try discriminate.
           apply andb_true_iff in H. destruct H as [H1 H2].
           eapply tr_step; eauto.
           -- apply check_robs_spec. exact H1.
           -- apply IH. exact H2.
-        * destruct ob as [|[|x] [|y rest]]; try discriminate.
+        * destruct ob as [|[| |x] [|y rest]]; try discriminate.
           destruct fin; try discriminate.
           eapply tr_panic; eauto.
       + intros H. inversion H; subst.
@@ -140,50 +269,79 @@ Section CheckProofs.
         * match goal with K : rt_step _ _ _ _ = Panic _ |- _ => rewrite K end. reflexivity.
   Qed.
 
+  (* an observer panic is never accepted *)
+  Lemma check_C19_broken regs ops pre rest fin :
+    check_C19 dflt C S size align idT eqR pat steps regs ops (pre ++ ObsBroken :: rest) fin = false.
+  Proof.
+    revert regs pre. induction ops as [|o ops IH]; intros regs pre; simpl.
+    - destruct pre; reflexivity.
+    - destruct (rt_step dflt C regs o) as [regs'| |site|]; auto.
+      + destruct pre as [|[| |x] pre]; simpl; auto. rewrite IH. apply andb_false_r.
+      + destruct pre as [|[| |x] pre]; simpl; auto. destruct pre; reflexivity.
+  Qed.
+
   (* --- the struct-level model satisfies the specification: its own observers
-         (rows field, data vector, ravel over rows*stride cells, derived ==) give
-         observations that the property accepts, in every well-formed state --- *)
-  Hypothesis HCS : C <= S.
+         (rows field, data vector, ravel over rows*stride cells, derived ==, row addresses
+         derived from the buffer address with the layout rule) give observations that the
+         property accepts, in every well-formed state and for every aligned buffer address --- *)
+  Hypothesis Hsize : 0 < size.
+  Hypothesis Halign : 0 < align.
+  Hypothesis Hdiv : align mod size = 0.
+  Hypothesis HS : S = stride size C align.
 
-  Lemma list_eqb_spec (a b : list T) : list_eqb eqT a b = true <-> a = b.
+  Lemma HCS : C <= S.
+  Proof. rewrite HS. apply stride_ge; assumption. Qed.
+
+  Lemma row_addr_z base r :
+    (base mod Z.of_nat align = 0)%Z ->
+    addr_ok S size align base r (base + Z.of_nat (row_addr 0 size C align r))%Z.
   Proof.
-    revert b; induction a as [|x a IH]; intros [|y b]; simpl; split; intros H;
-      try discriminate; auto.
-    - apply andb_true_iff in H. destruct H as [H1 H2]. apply eqT_spec in H1. apply IH in H2. congruence.
-    - inversion H; subst. apply andb_true_iff. split; [apply eqT_spec | apply IH]; auto.
+    intros Hb. unfold addr_ok, row_addr. cbn [Nat.add]. split.
+    - pose proof (row_bytes_mod size C align Halign) as Hm.
+      apply Nat.mod_divides in Hm; [|lia]. destruct Hm as [q Hq]. rewrite Hq.
+      replace (r * (align * q)) with (r * q * align) by lia.
+      rewrite Nat2Z.inj_mul. rewrite Z_mod_plus_full. exact Hb.
+    - rewrite HS, (stride_bytes size C align Hsize Halign Hdiv). rewrite Nat2Z.inj_mul. reflexivity.
   Qed.
 
-  Lemma table_eqb_spec (a b : @table T) : table_eqb eqT a b = true <-> a = b.
+  Lemma m_observe1_ok base m :
+    (base mod Z.of_nat align = 0)%Z -> m_wf C S m ->
+    mobs_ok S size align (mabs m) (m_observe1 C S size align idT base m).
   Proof.
-    revert b; induction a as [|x a IH]; intros [|y b]; simpl; split; intros H;
-      try discriminate; auto.
-    - apply andb_true_iff in H. destruct H as [H1 H2]. apply list_eqb_spec in H1. apply IH in H2. congruence.
-    - inversion H; subst. apply andb_true_iff. split; [apply list_eqb_spec | apply IH]; auto.
-  Qed.
-
-  Lemma m_observe1_ok m : m_wf C S m -> mobs_ok S (mabs m) (m_observe1 S eqT m).
-  Proof.
-    intros Hwf. unfold mobs_ok, m_observe1. simpl. repeat split; auto.
-    - apply (m_rows_abs C S); auto.
+    intros Hb Hwf. pose proof HCS as HCS'. unfold mobs_ok, m_observe1. cbn [ob_rows ob_stride ob_addrs ob_ravel ob_cells].
+    split; [apply (m_rows_abs C S); auto|]. split; [auto|]. split; [|split; [|reflexivity]].
+    - unfold mabs. rewrite abs_length.
+      assert (Hhd : forall n, 0 < n ->
+                hd 0%Z (map (fun r => (base + Z.of_nat (row_addr 0 size C align r))%Z) (seq 0 n)) = base).
+      { intros [|n] Hn; [lia|]. cbn [seq map hd]. unfold row_addr. cbn. lia. }
+      apply Forall2_seq_map. intros r Hr. apply in_seq in Hr.
+      rewrite Hhd by lia. apply row_addr_z. exact Hb.
     - apply andb_true_iff. split.
-      + rewrite (m_ravel_whole C S HCS) by auto. destruct Hwf as [H1 [H2 _]].
-        rewrite (ravel_length C S HCS) by auto. unfold m_rows. rewrite H2. apply Nat.eqb_refl.
-      + rewrite (m_ravel_whole C S HCS) by auto. apply (leqb_spec eqT eqT_spec). reflexivity.
+      + rewrite (m_ravel_whole C S HCS') by auto. destruct Hwf as [H1 [H2 _]].
+        rewrite (ravel_length C S HCS') by auto. unfold m_rows. rewrite H2. apply Nat.eqb_refl.
+      + rewrite (m_ravel_whole C S HCS') by auto. apply (leqb_spec idT idT_spec). reflexivity.
   Qed.
 
-  Lemma m_observe_ok (regs : list (@smat T)) :
-    Forall (m_wf C S) regs -> robs_ok S (map mabs regs) (m_observe S eqT regs).
+  Lemma m_observe_ok (bases : list Z) (regs : list (@smat T)) :
+    length bases = length regs ->
+    Forall (fun b => (b mod Z.of_nat align = 0)%Z) bases ->
+    Forall (m_wf C S) regs ->
+    robs_ok S size align eqR (map mabs regs) (m_observe C S size align idT eqR bases regs).
   Proof.
-    intros Hwf. rewrite Forall_forall in Hwf. unfold robs_ok, m_observe. simpl.
+    intros Hlen Hb Hwf. pose proof HCS as HCS'. unfold robs_ok, m_observe. cbn [ob_regs ob_eq ob_ne].
     split; [|split].
-    - apply Forall2_map_in. intros m Hm. apply m_observe1_ok. auto.
-    - rewrite list_prod_map. apply Forall2_map_in. intros [a b] Hp.
-      apply in_prod_iff in Hp. destruct Hp as [Ha Hb]. unfold eq_ok. simpl.
-      rewrite (m_eqb_abs C S HCS eqT a b) by auto. apply table_eqb_spec.
-    - rewrite list_prod_map. apply Forall2_map_in. intros [a b] Hp.
-      apply in_prod_iff in Hp. destruct Hp as [Ha Hb]. unfold ne_ok. simpl.
-      rewrite (m_eqb_abs C S HCS eqT a b) by auto.
-      rewrite negb_true_iff. rewrite <- not_true_iff_false. rewrite table_eqb_spec. tauto.
+    - revert bases Hlen Hb. induction regs as [|m regs IH]; intros [|b bases] Hlen Hb;
+        try discriminate; cbn [combine map]; constructor.
+      + cbn [fst snd]. apply m_observe1_ok; [exact (Forall_inv Hb)|exact (Forall_inv Hwf)].
+      + apply IH; [exact (Forall_inv_tail Hwf)|simpl in Hlen; lia|exact (Forall_inv_tail Hb)].
+    - rewrite Forall_forall in Hwf. rewrite list_prod_map. apply Forall2_map_in. intros [a b] Hp.
+      apply in_prod_iff in Hp. destruct Hp as [Ha Hb']. unfold eq_ok. cbn [fst snd].
+      rewrite (m_eqb_abs C S HCS' eqR a b) by auto. rewrite table_eqb_leqb. apply treqb_spec.
+    - rewrite Forall_forall in Hwf. rewrite list_prod_map. apply Forall2_map_in. intros [a b] Hp.
+      apply in_prod_iff in Hp. destruct Hp as [Ha Hb']. unfold ne_ok. cbn [fst snd].
+      rewrite (m_eqb_abs C S HCS' eqR a b) by auto. rewrite table_eqb_leqb.
+      rewrite negb_true_iff. rewrite <- not_true_iff_false.
+      pose proof (treqb_spec (mabs a) (mabs b)) as K. unfold treqb in K. tauto.
   Qed.
 
 End CheckProofs.
